@@ -21,7 +21,7 @@ LEVEL = "exploration"
 RULE = (
     "MVN: a pool of 4 (thorough: 5) chunks of 1,2,3,2(,1) frames with seed-valued coefficients on the "
     "dyadic grid k/8 (all sums exact in float64); for EVERY non-empty subset of the pool, EVERY set "
-    "partition of the subset into accumulate() calls x EVERY order of the calls (ordered set partitions: "
+    "partition of the subset into accumulate() calls (tensors of rank 2 and 3 with the feature axis at every position, and rank 1: a single frame handed over as (F,) between (m,F) blocks) x EVERY order of the calls (ordered set partitions: "
     "1,3,13,75(,541) per subset size; 149 (1031) histories), x bessel in {False,True} x feature axis at "
     "every position of 2-D and 3-D tensors in positive and negative spelling x F in {1,3} (thorough 1..3) "
     "x float32/float64; a block of chunks is one tensor whose non-feature axes hold the pooled frames. "
@@ -178,6 +178,8 @@ def _layout(frames, rank, pos, dtype):
     """frames (m x F) -> tensor of the requested rank with the feature axis at index pos."""
     m, nfeat = len(frames), len(frames[0])
     x = torch.tensor(frames, dtype=dtype)
+    if rank == 1:  # a single frame is handed over as a 1-D tensor (F,), several frames as (m, F); dim is -1
+        return x[0] if m == 1 else x
     if rank == 3:
         a, b = _factor(m)
         x = x.view(a, b, nfeat)
@@ -1644,6 +1646,9 @@ def shards(tier, seed):
                 for dtname in ("float64", "float32"):
                     out.append({"part": "mvn", "rank": rank, "pos": pos, "dim": dim, "F": nfeat,
                                 "dtype": dtname})
+    for nfeat in feats:  # single frames as 1-D tensors (F,) mixed with (m, F) blocks, feature axis spelled -1
+        for dtname in ("float64", "float32"):
+            out.append({"part": "mvn", "rank": 1, "pos": -1, "dim": -1, "F": nfeat, "dtype": dtname})
     for rank in (2, 3):
         for pos, dim in _dim_spellings(rank):
             out.append({"part": "cli", "rank": rank, "pos": pos, "dim": dim})
